@@ -82,6 +82,13 @@ func moduleDir() (string, func()) {
 	gs, _ := os.ReadFile(filepath.Join(eng, "go.sum"))
 	os.WriteFile(filepath.Join(d, "go.sum"), gs, 0644)
 	os.WriteFile(filepath.Join(d, "doc.go"), []byte("package neosymscratch\n"), 0644)
+	for _, p := range probeContracts { // the probe contracts are packages of the engine module
+		os.MkdirAll(filepath.Join(d, "probe", p), 0755)
+		for _, f := range []string{"contract.go", "config.yml"} {
+			data, _ := os.ReadFile(filepath.Join(eng, "probe", p, f))
+			os.WriteFile(filepath.Join(d, "probe", p, f), data, 0644)
+		}
+	}
 	return d, func() { os.RemoveAll(d) }
 }
 
